@@ -1036,6 +1036,10 @@ impl<'c, 'a> Exec<'c, 'a> {
                         self.ctx.fail("harness", "injected-without-plan", "injected panic without a plan".into());
                         None
                     }
+                    (Caught::Foreign(msg), _) if msg.contains(SOURCE_POLLED_FOREVER) => {
+                        self.ctx.fail("no-termination:extend", &format!("{}:extend", d.name), format!("extend({cnt} items, size-hint mode {hint}) never stops polling its source: {msg}"));
+                        None
+                    }
                     (Caught::Foreign(msg), _) => {
                         self.ctx.fail("panic:extend", &format!("{}:extend", d.name), format!("extend panicked: {msg}"));
                         None
@@ -1077,6 +1081,10 @@ impl<'c, 'a> Exec<'c, 'a> {
                     }
                     (Caught::Injected(_), None) => {
                         self.ctx.fail("harness", "injected-without-plan", "injected panic without a plan".into());
+                        None
+                    }
+                    (Caught::Foreign(msg), _) if msg.contains(SOURCE_POLLED_FOREVER) => {
+                        self.ctx.fail("no-termination:collect", &format!("{}:collect", d.name), format!("collect({cnt} items, size-hint mode {hint}) never stops polling its source: {msg}"));
                         None
                     }
                     (Caught::Foreign(msg), _) => {
@@ -1544,6 +1552,9 @@ fn first_words(s: &str) -> String {
     s.split(" @ ").next().unwrap_or("").to_string()
 }
 
+const SOURCE_POLL_CAP: usize = 4096;
+const SOURCE_POLLED_FOREVER: &str = "palsim: the source of extend/collect was polled more than 4096 times after it had returned None";
+
 struct PanicSource<'a> {
     items: &'a [Item],
     pos: usize,
@@ -1560,6 +1571,11 @@ impl<'a> Iterator for PanicSource<'a> {
         }
         let r = self.items.get(self.pos).copied();
         self.pos += 1;
+        // a consumer that keeps polling a source long after it has ended will never stop: end the
+        // conversation here (reported as `no-termination`) instead of waiting for the watchdog
+        if self.pos > self.items.len() + SOURCE_POLL_CAP {
+            panic!("{}", SOURCE_POLLED_FOREVER);
+        }
         r
     }
     fn size_hint(&self) -> (usize, Option<usize>) {
